@@ -97,6 +97,25 @@ def rename_one(d, name, taken, bias=0.3):
             if ns is not None and pre + ns not in prog.KEYWORDS and pre + ns not in prog.SPECIAL_NAMES and pre + ns not in STD_NAMES \
                     and pre + ns not in taken and (pre or not (ns[:2] in ("g_", "s_", "t_", "u_", "e_") or ns.startswith("ft_"))):
                 return pre + ns
+        body = name[len(pre):]
+        if attempt < 4 and body and all(c in LOW or c in DIG or c == "_" for c in body) and body[0] in LOW and d.bool(0.25):
+            # another lower-case snake-case name of the same length: underscores and digits may sit elsewhere, and the name may
+            # take (or lose) the shape of a standard typedef name (…_t)
+            n = len(body)
+            new = d.choice(LOW)
+            for _ in range(n - 1):
+                new += d.weighted([(8, d.choice(LOW)), (1, d.choice(DIG)), (1, "_")])
+            if n >= 3 and d.bool(0.5):
+                new = new[:-2] + "_t"
+            while "__" in new:
+                new = new.replace("__", "a_", 1)
+            if new.endswith("_"):
+                new = new[:-1] + "a"
+            out = pre + new
+            if out not in prog.KEYWORDS and out not in prog.SPECIAL_NAMES and out not in STD_NAMES and out not in taken \
+                    and (pre or not (out[:2] in ("g_", "s_", "t_", "u_", "e_") or out.startswith("ft_"))):
+                return out
+            out = pre
         for c in name[len(pre):]:
             if c in LOW:
                 out += d.choice(LOW)
@@ -223,7 +242,7 @@ def selftest():
 def run(pid, tier, seed):
     t0 = time.time()
     selftest()
-    shards, n = (8, 300) if tier == "quick" else (16, 4000)
+    shards, n = (16, 300) if tier == "quick" else (16, 4000)
     camp = core.Campaign()
     for name, rc in core.regress_cases(pid):
         for k, what in replay(pid, rc["case"]):
